@@ -361,18 +361,26 @@ def iaddT [Add ν] (dflt : ν) : (d : Nat) → Tree κ ν d → Tree κ ν d →
         if removeAfter dflt d old.isNone v then none else some v)
       (show List (κ × Tree κ ν d) from a) (present dflt d b)
 
-/-- `getPayloadRef(c)` on an existing coordinate followed by `ref <<= v` -/
-def setAt {α : Type} (f : Fib κ α) (c : κ) (v : α) : Fib κ α :=
-  f.map (fun e => if e.1 = c then (e.1, v) else e)
+/-- The loop of `Fiber.__imul__(fiber)`: `self & other` walks both operands with two fingers;
+    at a common coordinate `getPayloadRef(c)` is that element of `self`, which is overwritten
+    (`f`); every other element of `self` stays where it is. -/
+def imulMerge {α β : Type} (f : α → β → α) : Fib κ α → Fib κ β → Fib κ α
+  | [], _ => []
+  | a@(_ :: _), [] => a
+  | (ca, pa) :: ra, (cb, pb) :: rb =>
+    if ca = cb then (ca, f pa pb) :: imulMerge f ra rb
+    else if ca < cb then (ca, pa) :: imulMerge f ra ((cb, pb) :: rb)
+    else imulMerge f ((ca, pa) :: ra) rb
+termination_by a b => a.length + b.length
 
-/-- `Fiber.__imul__(fiber)`: for every element of `self & other`,
+/-- `Fiber.__imul__(fiber)`: for every element of `self & other` (presented on both sides),
     `self.getPayloadRef(c) <<= self_val * other_val`.  (`<<=` of a fiber copies the presented
-    elements = `nonEmpty`.)  Elements of `self` outside the intersection are not touched. -/
+    elements = `nonEmpty`; an element of `self` that is not presented is skipped by `&`.)
+    Elements of `self` outside the intersection are not touched. -/
 def imulT [Mul ν] (dflt : ν) (d : Nat) (a b : Tree κ ν (d + 1)) : Tree κ ν (d + 1) :=
   show List (κ × Tree κ ν d) from
-  (andMerge (present dflt d a) (present dflt d b)).foldl
-    (fun acc r => setAt acc r.1 (nonEmpty dflt d (mulT dflt d r.2.1 r.2.2)))
-    (show List (κ × Tree κ ν d) from a)
+  imulMerge (fun pa pb => if isEmpty dflt d pa then pa else nonEmpty dflt d (mulT dflt d pa pb))
+    (show List (κ × Tree κ ν d) from a) (present dflt d b)
 
 /-! ### pointwise expectations (the declarative side) -/
 
